@@ -10,6 +10,7 @@ GO_KIND = {'int': 'int', 'i8': 'int8', 'i16': 'int16', 'i32': 'int32', 'i64': 'i
 WIDTH = {'int': 64, 'i8': 8, 'i16': 16, 'i32': 32, 'i64': 64, 'uint': 64, 'u8': 8, 'u16': 16, 'u32': 32, 'u64': 64}
 SIGNED = {k: not k.startswith('u') for k in KINDS}
 BOOL, STR = 'bool', 'str'
+F64 = 'f64'
 
 
 def tint(k):
@@ -81,6 +82,8 @@ def go_type(t, cx):
         return 'string'
     if t == 'any':
         return 'any'
+    if t == F64:
+        return 'float64'
     h = t[0]
     if h == 'int':
         return GO_KIND[t[1]]
@@ -111,6 +114,8 @@ def lean_type(t):
         return 'bool'
     if t == STR:
         return 'str'
+    if t == F64:
+        return 'f64'
     h = t[0]
     if h == 'int':
         return '(int %s)' % t[1]
@@ -165,6 +170,8 @@ def zero_lean(t):
         return '(s -)'
     if u == 'any':
         return '(nil iface)'
+    if u == F64:
+        return '(f 0)'
     h = u[0]
     if h == 'int':
         return '(i %s 0)' % u[1]
@@ -242,6 +249,22 @@ def go_str(b):
     return '"' + ''.join(out) + '"'
 
 
+class FloatLit(E):
+    """float64 constant (exactly representable values only: printed in decimal for Go, as IEEE bits for Lean)"""
+    const = True
+    ty = 'f64'
+
+    def __init__(self, v):
+        self.v = float(v)
+
+    def go(self, cx):
+        return 'float64(%r)' % self.v
+
+    def lean(self):
+        import struct
+        return '(f %d)' % struct.unpack('<Q', struct.pack('<d', self.v))[0]
+
+
 class StrLit(E):
     const = True
 
@@ -271,6 +294,8 @@ class Zero(E):
             return '%s("")' % t if self.ty != STR else '""'
         if u == 'any':
             return 'any(nil)'
+        if u == F64:
+            return 'float64(0)'
         if u[0] == 'int':
             return '%s(0)' % t
         if u[0] == 'named':
